@@ -4,6 +4,7 @@ package main
 // function is reported as outside the verifiable subset.
 
 import (
+	"strings"
 	"go/types"
 
 	"golang.org/x/tools/go/ssa"
@@ -127,4 +128,42 @@ func (fx *FnCtx) typeAssert(st *State, pc *Term, t *ssa.TypeAssert) Value {
 	out.L = append(out.L, val.L...)
 	out.L = append(out.L, ok)
 	return out
+}
+
+// observerMethod: the uninterpreted spec function name is the observer of an interface method, i.e.
+// some trusted contract  T.M  has  ensures result == name(self).  Returns the method name.
+func (v *Verifier) observerMethod(name string) (method string, ok bool) {
+	for _, fc := range v.cs.Funcs {
+		if !fc.Trusted {
+			continue
+		}
+		if uf := observerUF(fc); uf == name {
+			if k := strings.LastIndex(fc.Name, "."); k >= 0 {
+				return fc.Name[k+1:], true
+			}
+		}
+	}
+	return "", false
+}
+
+// observerUF returns the uninterpreted function an observer contract equates its result with.
+func observerUF(fc *FuncContract) string {
+	for _, c := range fc.Ensures {
+		b, ok := c.Expr.(*SBin)
+		if !ok || b.Op != "==" {
+			continue
+		}
+		l, ok := b.L.(*SIdent)
+		if !ok || l.Name != "result" {
+			continue
+		}
+		call, ok := b.R.(*SCall)
+		if !ok || len(call.Args) != 1 {
+			continue
+		}
+		if a, ok := call.Args[0].(*SIdent); ok && (a.Name == "self" || a.Name == "recv") {
+			return call.Fun
+		}
+	}
+	return ""
 }
